@@ -285,6 +285,8 @@ func runSCIONServer(ctx context.Context, log *slog.Logger, mtrcs *scionServerMet
 					scionLayer.NextHdr = slayers.End2EndClass
 				}
 				e2eLayer.Options = append(e2eLayer.Options, tsOpt)
+			} else if scionLayer.NextHdr != slayers.End2EndClass {
+				scionLayer.NextHdr = slayers.L4UDP
 			}
 
 			if scionLayer.NextHdr == slayers.End2EndClass {
